@@ -13,3 +13,7 @@
 (assert (forall ((x Fr)) (! (= (fr_mul x fr_zero) fr_zero) :pattern ((fr_mul x fr_zero)))))
 (assert (forall ((x Fp)) (! (= (fp_mul fp_zero x) fp_zero) :pattern ((fp_mul fp_zero x)))))
 (assert (forall ((x Fp)) (! (= (fp_mul x fp_zero) fp_zero) :pattern ((fp_mul x fp_zero)))))
+(assert (forall ((x Fr)) (! (= (fr_mul x fr_one) x) :pattern ((fr_mul x fr_one)))))
+(assert (forall ((x Fr)) (! (= (fr_mul fr_one x) x) :pattern ((fr_mul fr_one x)))))
+(assert (forall ((x Fp)) (! (= (fp_mul x fp_one) x) :pattern ((fp_mul x fp_one)))))
+(assert (forall ((x Fp)) (! (= (fp_mul fp_one x) x) :pattern ((fp_mul fp_one x)))))
